@@ -8,6 +8,8 @@ byte strings the same way (values below 0x100).
   line <topic> <payload>           -> <line>
   match <filter> <topic>           -> 1 | 0
   subs <prefix>                    -> <filter>:<qos|indexerror> ...
+  heard <prefix> <topic>           -> 1 | 0          (does one of the subscriptions `connect` makes under the in-prefix
+                                                       AS CONFIGURED match the topic?  `C18.subscribed_iff`)
   utf8 <bytes>                     -> ok <str> | invalid
   write <prefix> <line> <outcome>  -> ok <topic> <payload> <qos> | transportFailed | transportError | foreign <Class>
   conn <outcome> <outcome>*        -> ok | transportError | transportFailed | foreign <Class>
@@ -148,6 +150,10 @@ def step (st : TState) (line : String) : TState × String :=
     | some p => (st, " ".intercalate ((subscriptions p).map fun (f, q) =>
         encodeStr f ++ ":" ++ (match q with | some q => s!"{q}" | none => "indexerror")))
     | none => (st, "bad-op")
+  | ["heard", p, t] =>
+    match decodeStr p, decodeStr t with
+    | some p, some t => (st, if (filters p).any (fun f => matchesFilter f t) then "1" else "0")
+    | _, _ => (st, "bad-op")
   | ["utf8", b] =>
     match decodeNats b with
     | some b => (st, match utf8Decode b with | some s => "ok " ++ encodeStr s | none => "invalid")
